@@ -68,3 +68,64 @@ def shrink_candidates(case):
         kk = dict(kinds)
         del kk[k]
         yield dict(case, kinds=kk)
+
+
+# ---------------------------------------------------------------- processors over connection choices
+def add_conn_batch(base_batches, pid, n_quick=60, n_thorough=900):
+    """a second batch: graphs with 1-2 connection choices, decoded through GraphProcessor (conndrive.explore_processor)"""
+    import conndrive
+
+    def batches(tier, seed):
+        for b_ in base_batches(tier, seed):
+            yield b_
+        rng = rng_for(seed, pid + '-conn')
+        pc = []
+        for i in range(n_quick if tier == 'quick' else n_thorough):
+            for _try in range(60):
+                c = dsgcase.gen_sel(rng, max_nodes=6, max_choices=2, n_incompat=0)
+                if not dsgcase.guards(c):
+                    break
+            c = conndrive.add_connection(rng, c, n_choices=2 if i % 3 == 2 else 1, group_prob=0.0 if i % 4 else 0.25,
+                                         permanent_only=(i % 2 == 0))
+            c['_i'] = i
+            c['_proc'] = True
+            pc.append(c)
+        yield 'g-conn-processor', pc
+    return batches
+
+
+def wrap_run_case(run_case, conn_clauses):
+    import conndrive
+
+    def run(case):
+        if not case.get('_proc'):
+            return run_case(case)
+        c = {k: v for k, v in case.items() if not k.startswith('_')}
+        r = conndrive.explore_processor(c, seed=case.get('_i', 0))
+        f = r.get('fail')
+        if f is not None and f.get('clause') != 'model-error' and not any(f['clause'].startswith(p) for p in conn_clauses):
+            r = dict(r)
+            del r['fail']
+            r.setdefault('tags', []).append('other-property-clause:' + f['clause'])
+            r.setdefault('queries', [])
+            r.setdefault('nontrivial', False)
+        return r
+    return run
+
+
+def wrap_match_known(match_known):
+    def mk(case, fail, known):
+        if case.get('_proc'):
+            from props import C11
+            return C11.match_known(case, fail, known)
+        return match_known(case, fail, known)
+    return mk
+
+
+def wrap_shrink(shrink_candidates):
+    def sc(case):
+        if case.get('_proc'):
+            from props import C11
+            return C11.shrink_candidates(case)
+        return shrink_candidates(case)
+    return sc
